@@ -157,7 +157,7 @@ def run(chk, only=None):
                     k = NAME.get(n[1], "")
                     if n[1] in AMB:
                         got = "ambiguous"; break
-                    if form in ("mul", "call"):
+                    if form in ("mul", "call", "mul2"):
                         if k == "DeclarationStatement":
                             got = "decl"; break
                         if k == "ExpressionStatement":
@@ -190,7 +190,7 @@ def run(chk, only=None):
                     md = model_dec[id(p)].get(si)
                     if md is not None:
                         model_n += 1
-                        d = md[1] if form in ("mul", "call") else md[0]
+                        d = md[1] if form in ("mul", "call", "mul2") else md[0]
                         impl_d = {"decl": 0, "cast": 0, "typename": 0, "product-of-cast": 0, "expr": 1, "binary": 1, "expression": 1, "sum-with-product": 1, "product-of-sum": 1, "ambiguous": 2}.get(got)
                         if form == "call" and d == 2:
                             pass         # the call form has one more rule (a defined non-type argument) that the model leaves out
